@@ -91,6 +91,14 @@ class Inliner:
                                 if isinstance(st.value, (ast.Tuple, ast.List)) and len(st.value.elts) == len(elts):
                                     return st.value.elts[i]
                                 return ast.copy_location(ast.Subscript(value=st.value, slice=ast.Constant(value=i), ctx=ast.Load()), st.value)
+                    # `if t: name = a  else: name = b` (each branch a single simple assignment of the name, nothing else
+                    # assigning it): the definition is the conditional expression `a if t else b`
+                    if isinstance(st, ast.If) and st.orelse:
+                        a = [x for x in st.body if name in self._assigned_names(x)]
+                        b = [x for x in st.orelse if name in self._assigned_names(x)]
+                        simple = lambda x: isinstance(x, ast.Assign) and len(x.targets) == 1 and isinstance(x.targets[0], ast.Name) and x.targets[0].id == name
+                        if len(a) == 1 and len(b) == 1 and simple(a[0]) and simple(b[0]):
+                            return ast.copy_location(ast.IfExp(test=st.test, body=a[0].value, orelse=b[0].value), st)
                     return None  # assigned in a nested construct / augmented: not a unique closed definition
             par = self.parent.get(id(cur))
             if par is None or par is self.func:
